@@ -34,6 +34,9 @@ RULE = (
     " Wrong message ids also relative to the probe (+-2^32, +2^33, +-2^31, +2^16, +2^8, +2^64"
     ", negated, sign bit flipped); one history in five has reports whose scoped PDU names no "
     "or another context engine."
+    " One history in five runs against an agent doing discovery in two steps (boots = time = "
+    "0 in the unauthenticated report); \"drift\" steps make the agent clock run fast by 10..864"
+    "00 s (one more re-synchronisation permitted each)."
 )
 ASSUMPTIONS = [
     "the unbounded 'succeeds any time later' is restated as bounded progress: every operation of every generated history",
